@@ -560,6 +560,11 @@ theorem pump_inv (fuel : Nat) : ∀ s : St, Inv s → Inv (pump fuel s) := by
 theorem step_inv (s : St) (op : Op) (h : Inv s) : Inv (step s op) := by
   cases op with
   | send c k => exact send_inv s c k h
+  | sendNR =>
+    simp only [step, sendNR]
+    split
+    · exact h
+    · exact ⟨h.ids_sorted, h.ids_lt, h.out_lt, h.out_nodup, h.pend_fresh, h.done_has, h.complete, h.closed_empty⟩
   | feed ch =>
     simp only [step, feed]
     split
@@ -826,6 +831,11 @@ theorem pump_invM (fuel : Nat) : ∀ s : St, InvM s → InvM (pump fuel s) := by
 theorem step_invM (s : St) (op : Op) (h : InvM s) : InvM (step s op) := by
   cases op with
   | send c k => exact send_invM s c k h
+  | sendNR =>
+    simp only [step, sendNR]
+    split
+    · exact h
+    · exact ⟨h.issued_reqs, h.issued_lt, h.reqs_lt, h.sorted, h.out_match, h.order, nextCorr_lt _⟩
   | feed ch =>
     simp only [step, feed]
     split
@@ -859,16 +869,19 @@ end AkVerif.Conn
 namespace AkVerif.Conn
 open AkVerif.Wire
 
-/-! ### ghost invariant: the correlated requests in flight carry consecutive ordinals -/
+/-! ### ghost invariant: the correlated requests in flight carry increasing ordinals -/
 
 def corrSeqNos (reqs : List Req) : List Nat := (reqs.filter (fun r => r.corr.isSome)).map (·.seqNo)
 
+/-- `sent` counts the correlation ids consumed so far (requests with and without a waiter); a queued
+    request carries the id `corrSeq base seqNo`; the ordinals of the queued requests increase along
+    the queue and none exceeds `sent` -/
 structure InvG (s : St) : Prop where
   base_lt : s.base < 2 ^ 31
   ctr : s.counter = corrSeq s.base s.sent
   corr_seq : ∀ r ∈ s.reqs, ∀ c, r.corr = some c → c = corrSeq s.base r.seqNo
-  len_le : (corrSeqNos s.reqs).length ≤ s.sent
-  window : corrSeqNos s.reqs = List.range' (s.sent + 1 - (corrSeqNos s.reqs).length) (corrSeqNos s.reqs).length
+  nos_le : ∀ n ∈ corrSeqNos s.reqs, n ≤ s.sent
+  nos_sorted : (corrSeqNos s.reqs).Pairwise (· < ·)
 
 theorem corrSeqNos_mark (p : Req → Bool) (l : List Req) : corrSeqNos (l.map (mark p)) = corrSeqNos l := by
   unfold corrSeqNos
@@ -891,8 +904,8 @@ theorem resolveWhere_invG (p : Req → Bool) (o : Outcome) (s : St) (h : InvG s)
     have hcc : (mark p r0).corr = r0.corr := by unfold mark; split <;> rfl
     have hss : (mark p r0).seqNo = r0.seqNo := by unfold mark; split <;> rfl
     rw [hcc] at hc; rw [hss]; exact h.corr_seq r0 h0 c hc
-  · rw [hr, corrSeqNos_mark]; exact h.len_le
-  · rw [hr, corrSeqNos_mark]; exact h.window
+  · rw [hr, corrSeqNos_mark]; exact h.nos_le
+  · rw [hr, corrSeqNos_mark]; exact h.nos_sorted
 
 theorem corrSeqNos_cons (r : Req) (rest : List Req) :
     corrSeqNos (r :: rest) = if r.corr.isSome then r.seqNo :: corrSeqNos rest else corrSeqNos rest := by
@@ -909,8 +922,8 @@ theorem close_invG (s : St) (h : InvG s) : InvG (close s) := by
     have hr := resolveWhere_invG (fun _ => true) Outcome.connErr s h
     refine ⟨hr.base_lt, hr.ctr, ?_, ?_, ?_⟩
     · intro r hrm; cases hrm
-    · show (corrSeqNos []).length ≤ _; rw [corrSeqNos_nil]; exact Nat.zero_le _
-    · show corrSeqNos [] = _; rw [corrSeqNos_nil]; rfl
+    · intro n hn; rw [show ({ resolveWhere (fun _ => true) Outcome.connErr s with isOpen := false, buf := [], reqs := [] } : St).reqs = [] from rfl, corrSeqNos_nil] at hn; cases hn
+    · show (corrSeqNos []).Pairwise (· < ·); rw [corrSeqNos_nil]; exact List.Pairwise.nil
   · have : s.isOpen = false := by simpa using ho
     simp only [this, Bool.not_false, if_true]; exact h
 
@@ -933,10 +946,10 @@ theorem send_invG (s : St) (c : Bool) (k : Kind) (h : InvG s) : InvG (send s c k
         rcases hr with hr | rfl
         · exact h.corr_seq r hr c hc
         · simp at hc
-      · show (corrSeqNos (s.reqs ++ _)).length ≤ s.sent
-        rw [hnew _ rfl]; exact h.len_le
-      · show corrSeqNos (s.reqs ++ _) = List.range' (s.sent + 1 - (corrSeqNos (s.reqs ++ _)).length) _
-        rw [hnew _ rfl]; exact h.window
+      · show ∀ n ∈ corrSeqNos (s.reqs ++ _), n ≤ s.sent
+        rw [hnew _ rfl]; exact h.nos_le
+      · show (corrSeqNos (s.reqs ++ _)).Pairwise (· < ·)
+        rw [hnew _ rfl]; exact h.nos_sorted
     | true =>
       simp only [if_true]
       have hnew : ∀ (x : Req), x.corr.isSome = true → x.seqNo = s.sent + 1 →
@@ -952,47 +965,50 @@ theorem send_invG (s : St) (c : Bool) (k : Kind) (h : InvG s) : InvG (send s c k
         · exact h.corr_seq r hr c hc
         · simp only [Option.some.injEq] at hc
           rw [← hc, corrSeq, h.ctr]
-      · show (corrSeqNos (s.reqs ++ _)).length ≤ s.sent + 1
-        rw [hnew _ rfl rfl, List.length_append]
-        have := h.len_le; simp; omega
-      · show corrSeqNos (s.reqs ++ _) = List.range' (s.sent + 1 + 1 - (corrSeqNos (s.reqs ++ _)).length) _
-        rw [hnew _ rfl rfl, List.length_append]
-        have hl := h.len_le
-        have hw := h.window
-        generalize corrSeqNos s.reqs = L at hl hw ⊢
-        simp only [List.length_singleton]
-        rw [List.range'_concat]
-        have e1 : s.sent + 1 + 1 - (L.length + 1) = s.sent + 1 - L.length := by omega
-        rw [e1, ← hw]
-        congr 1
-        simp; omega
+      · show ∀ n ∈ corrSeqNos (s.reqs ++ _), n ≤ s.sent + 1
+        rw [hnew _ rfl rfl]
+        intro n hn
+        rcases List.mem_append.mp hn with hn | hn
+        · have := h.nos_le n hn; omega
+        · simp at hn; omega
+      · show (corrSeqNos (s.reqs ++ _)).Pairwise (· < ·)
+        rw [hnew _ rfl rfl, List.pairwise_append]
+        refine ⟨h.nos_sorted, List.pairwise_singleton _ _, ?_⟩
+        intro a ha b hb
+        simp at hb
+        have := h.nos_le a ha; omega
   · have hc : s.isOpen = false := by simpa using ho
     simp only [hc, Bool.not_false, if_true]
-    exact ⟨h.base_lt, h.ctr, h.corr_seq, h.len_le, h.window⟩
+    exact ⟨h.base_lt, h.ctr, h.corr_seq, h.nos_le, h.nos_sorted⟩
 
-/-- dropping the head request keeps the window -/
+theorem sendNR_invG (s : St) (h : InvG s) : InvG (sendNR s) := by
+  unfold sendNR
+  split
+  · exact h
+  · refine ⟨h.base_lt, ?_, h.corr_seq, ?_, h.nos_sorted⟩
+    · show nextCorr s.counter = corrSeq s.base (s.sent + 1)
+      rw [corrSeq, h.ctr]
+    · intro n hn; have := h.nos_le n hn
+      show n ≤ s.sent + 1
+      omega
+
+/-- dropping the head request keeps the ordinals increasing and bounded -/
 theorem pop_invG (s : St) (r : Req) (rest : List Req) (out : List (Nat × Outcome)) (h : InvG s)
     (hq : s.reqs = r :: rest) : InvG (s.setRO rest out) := by
   have hmem : ∀ x ∈ rest, x ∈ s.reqs := fun x hx => hq ▸ List.mem_cons_of_mem _ hx
-  have hw := h.window
-  have hl := h.len_le
-  rw [hq, corrSeqNos_cons] at hw hl
-  refine ⟨h.base_lt, h.ctr, fun x hx => h.corr_seq x (hmem x hx), ?_, ?_⟩
-  · show (corrSeqNos rest).length ≤ s.sent
-    split at hl
-    · simp only [List.length_cons] at hl; omega
-    · exact hl
-  · show corrSeqNos rest = List.range' (s.sent + 1 - (corrSeqNos rest).length) (corrSeqNos rest).length
-    split at hw
-    · rename_i hsome
-      simp only [hsome, if_true, List.length_cons] at hl
-      simp only [List.length_cons] at hw
-      generalize corrSeqNos rest = L at hw hl ⊢
-      rw [List.range'_succ] at hw
-      injection hw with _ hw
-      have e : s.sent + 1 - (L.length + 1) + 1 = s.sent + 1 - L.length := by omega
-      rw [e] at hw; exact hw
-    · exact hw
+  have hsub : ∀ n ∈ corrSeqNos rest, n ∈ corrSeqNos s.reqs := by
+    intro n hn
+    rw [hq, corrSeqNos_cons]
+    split
+    · exact List.mem_cons_of_mem _ hn
+    · exact hn
+  refine ⟨h.base_lt, h.ctr, fun x hx => h.corr_seq x (hmem x hx), fun n hn => h.nos_le n (hsub n hn), ?_⟩
+  show (corrSeqNos rest).Pairwise (· < ·)
+  have hs := h.nos_sorted
+  rw [hq, corrSeqNos_cons] at hs
+  split at hs
+  · exact (List.pairwise_cons.mp hs).2
+  · exact hs
 
 theorem handleFrame_invG (s : St) (f : Bytes) (h : InvG s) : InvG (handleFrame s f) := by
   unfold handleFrame
@@ -1012,7 +1028,7 @@ theorem handleFrame_invG (s : St) (f : Bytes) (h : InvG s) : InvG (handleFrame s
             · exact pop_invG s r rest _ h hq
 
 theorem withBuf_invG (s : St) (x : Bytes) (h : InvG s) : InvG (s.withBuf x) :=
-  ⟨h.base_lt, h.ctr, h.corr_seq, h.len_le, h.window⟩
+  ⟨h.base_lt, h.ctr, h.corr_seq, h.nos_le, h.nos_sorted⟩
 
 theorem pump_invG (fuel : Nat) : ∀ s : St, InvG s → InvG (pump fuel s) := by
   induction fuel with
@@ -1030,6 +1046,7 @@ theorem pump_invG (fuel : Nat) : ∀ s : St, InvG s → InvG (pump fuel s) := by
 theorem step_invG (s : St) (op : Op) (h : InvG s) : InvG (step s op) := by
   cases op with
   | send c k => exact send_invG s c k h
+  | sendNR => exact sendNR_invG s h
   | feed ch =>
     simp only [step, feed]
     split
@@ -1037,7 +1054,7 @@ theorem step_invG (s : St) (op : Op) (h : InvG s) : InvG (step s op) := by
     · exact pump_invG _ _ (withBuf_invG s _ h)
   | advance dt =>
     simp only [step, advance]
-    exact resolveWhere_invG _ _ _ ⟨h.base_lt, h.ctr, h.corr_seq, h.len_le, h.window⟩
+    exact resolveWhere_invG _ _ _ ⟨h.base_lt, h.ctr, h.corr_seq, h.nos_le, h.nos_sorted⟩
   | cancel id => exact resolveWhere_invG _ _ s h
   | eof => exact close_invG s h
   | close => exact close_invG s h
